@@ -202,10 +202,10 @@ def pinned_lockstep(rounds=40, n=3):
                     return
                 total += step
                 try:
-                    rep = c.cmd("INCRBY", "own%d" % i, str(step), timeout=6.0)
+                    rep = c.cmd("INCRBY", "own%d" % i, str(step), timeout=25.0)
                 except Exception as e:
                     with lock:
-                        problems.append({"kind": "no-reply", "node": cl.nodes[i].id, "round": r, "detail": "INCRBY own%d %d through node %d: no reply within 6 s (%s)" % (i, step, cl.nodes[i].id, type(e).__name__)})
+                        problems.append({"kind": "no-reply", "node": cl.nodes[i].id, "round": r, "detail": "INCRBY own%d %d through node %d: no reply within 25 s (%s)" % (i, step, cl.nodes[i].id, type(e).__name__)})
                     bar.abort()
                     return
                 if rep != (":", total):
